@@ -552,8 +552,8 @@ func (cx *CheckCtx) finish(level string, rule string, assumptions []string) int 
 		go func(gi int, k string, vs []*Violation) {
 			defer cwg.Done()
 			defer func() { <-csem }()
-			for try := 0; try < len(vs) && try < 3; try++ {
-				v := vs[try]
+			for try := 0; try < 2*len(vs) && try < 8; try++ {
+				v := vs[try/2] // each candidate twice: commit ids embed the second of the run, so a replay can differ
 				if v.Trace == nil {
 					continue
 				}
